@@ -5,8 +5,8 @@ conway.cddl over the RFC 8949 codec ref/cbor_ref.py).  For every generated objec
 bytes must be the reference bytes; the model's bytes (`md.enc`) and its transliterated CDDL recogniser
 (`Spec/Metadata.lean`, op `md.conforms`) are compared in the same pass, the recogniser also on the damaged stream against the
 reference DECODER.  Objects the constructors accept outside the CDDL (booleans, bignums, over-long nested keys, negative /
-bignum labels, `ShelleyMarryMetadata(native_scripts=None)`: theorem constructed_conforms_counterexample) are counted, compared
-with the model's verdict, and not judged."""
+bignum labels: theorem constructed_conforms_counterexample) are counted, compared with the model's verdict, and not judged;
+a Shelley-MA form built without a script list is inside the CDDL (`[metadata, []]`) and judged."""
 from __future__ import annotations
 
 import random
@@ -39,15 +39,14 @@ def ref_aux(a):
     if a["k"] == "shelley":
         return {"k": "shelley", "metadata": md}
     if a["k"] == "shelley_ma":
-        if a["native"] is None:
-            raise C.SpecError("auxiliary_scripts missing")
-        return {"k": "shelley_ma", "metadata": md, "native": a["native"]}
+        # no script list given: the content is the empty list (the constructor's normalisation; the CDDL has no other way to say it)
+        return {"k": "shelley_ma", "metadata": md, "native": a["native"] or []}
     return {"k": "alonzo", "metadata": md, "native": a["native"], "v1": a["v1"], "v2": a["v2"], "v3": a["v3"]}
 
 
 def in_cddl(a):
     md_ok = a["md"] is None or all(0 <= l < 2**64 and X.spec_ok(n) for l, n in a["md"])
-    return md_ok and not (a["k"] == "shelley_ma" and a["native"] is None)
+    return md_ok
 
 
 def check_conf(ctx, case):
@@ -86,7 +85,7 @@ def check_conf(ctx, case):
     if ctx.have_driver():
         d = ctx.driver()
         nat = None if a["native"] is None else [X.dumps(X.lib_native(s)).hex() for s in a["native"]]
-        m = d.ok({"op": "md.enc", "aux": X.aux_json(a, nat)})
+        m = d.ok({"op": "md.enc", "aux": X.aux_json(a, nat)})          # constructor arguments; the driver applies `normAux`
         ctx.traces += 1
         if m["hex"] != b.hex():
             ctx.diff("md.enc", desc, m["hex"], b.hex())
@@ -149,8 +148,8 @@ def dispatch(ctx, case):
 
 def run_ext(ctx):
     ctx.assumptions.append("metadata / auxiliary data: judged against harness/ref/conway.py (t_aux) inside the CDDL ranges only; "
-                           "what the constructors accept beyond them (booleans, bignums, over-long nested keys, non-uint labels, "
-                           "ShelleyMarryMetadata(native_scripts=None)) is the content of theorem "
+                           "what the constructors accept beyond them (booleans, bignums, over-long nested keys, non-uint labels) "
+                           "is the content of theorem "
                            "constructed_conforms_counterexample and is compared with the model's verdict only")
     n = ctx.budget(720, 15000)
     j = 0
